@@ -402,11 +402,12 @@ fn run_history(reg: Reg, front: Front, abp: bool, syms: &[Sym], rng: &mut Prng, 
             // the application misbehaves too: calls in the middle of a transaction, events when idle
             if rng.chance(1, 3) {
                 for _ in 0..rng.range(1, 3) {
-                    let k = match rng.below(5) {
+                    let k = match rng.below(6) {
                         0 => Intrusion::Send,
                         1 => Intrusion::SendConfirmed,
                         2 => Intrusion::Join,
                         3 => Intrusion::StrayRx(rng.bytes_below(40)),
+                        4 => Intrusion::StrayTimeout,
                         _ => Intrusion::StrayNothing,
                     };
                     script.intrude.push((rng.range(1, 7) as u32, k));
